@@ -71,7 +71,8 @@ pub fn expected(sc: &Scenario, ci: usize) -> ExpConv {
                     Expect::Msg(s, b) => e.finals.push(ExpResp {
                         id: Some(id),
                         status: s,
-                        body: Some(b),
+                        // the body of the automatic 500 is not specified by any property
+                        body: if matches!(p.finish, Finish::Drop | Finish::Panic) { None } else { Some(b) },
                         is_head: m.is_head,
                         why: "handler".into(),
                     }),
